@@ -210,6 +210,7 @@ const (
 	sigAC  = "torn-serve/kind=ac/read=size-unknown/parses=yes"
 	sigCASFull   = "unverified-serve/kind=cas/storage=uncompressed/read=size-known/payload=wrong-bytes-of-declared-length"
 	sigOverwrite = "acked-lost/in-flight-reupload-of-same-key-shadows-acked-file"
+	sigSameTick  = "acked-lost/predecessor-awaiting-unlink/same-access-time"
 )
 
 func TestC08CrashRestart(t *testing.T) {
@@ -414,6 +415,29 @@ func TestC08CrashRestart(t *testing.T) {
 	})
 }
 
+// sameTick reports whether dir holds two or more files of the key whose access
+// times are all identical (files created within one tick of the kernel's
+// coarse clock): the loader orders duplicates by access time only and cannot
+// tell the acknowledged file from its not-yet-unlinked predecessor then.
+func sameTick(dir, key string) bool {
+	var times []time.Time
+	_ = filepath.Walk(dir, func(p string, info os.FileInfo, err error) error {
+		if err == nil && info.Mode().IsRegular() && strings.Contains(filepath.Base(p), hashOf(key)) && strings.HasPrefix(filepath.ToSlash(p[len(dir)+1:]), strings.SplitN(key, "/", 2)[0]+".v2/") {
+			times = append(times, atimeOf(info))
+		}
+		return nil
+	})
+	if len(times) < 2 {
+		return false
+	}
+	for _, t := range times[1:] {
+		if !t.Equal(times[0]) {
+			return false
+		}
+	}
+	return true
+}
+
 func hashOf(key string) string { return key[strings.IndexByte(key, '/')+1:] }
 func kindOf(key string) cache.EntryKind {
 	switch {
@@ -442,6 +466,12 @@ func checkImage(t *rapid.T, im image, before, after, codec string, maxSize int64
 	desc += "; access / modification times: " + fileTimes(dir)
 	if im.inflight != nil {
 		desc += fmt.Sprintf("; in flight: %s (%d bytes, %d handed over)", im.inflight.key(), len(im.inflight.data), im.torn)
+	}
+	tied := map[string]bool{}
+	for key := range im.acked {
+		if sameTick(dir, key) {
+			tied[key] = true
+		}
 	}
 	s, err := stack.New(stack.Opts{Storage: after, Zstd: codec, MaxSize: maxSize, Dir: dir, NoServers: true})
 	if err != nil {
@@ -499,6 +529,9 @@ func checkImage(t *rapid.T, im image, before, after, codec string, maxSize int64
 				if key == inflightKey && E.Known(sigOverwrite) {
 					continue
 				}
+				if tied[key] && E.Known(sigSameTick) {
+					continue
+				}
 				t.Fatalf("value acknowledged before the crash is not served after the restart (%s, size=%d)\n%s", key, sz, desc)
 			}
 			ok := bytes.Equal(got, cur)
@@ -517,6 +550,9 @@ func checkImage(t *rapid.T, im image, before, after, codec string, maxSize int64
 					continue
 				}
 				t.Fatalf("CAS read returned %d bytes whose SHA-256 is not the key %s (size=%d)\n%s", len(got), hash, sz, desc)
+			}
+			if !ok && tied[key] && oneOf(got, versions) && E.Known(sigSameTick) {
+				continue // the predecessor (an earlier acknowledged version) won the tie
 			}
 			if !ok {
 				if key == inflightKey && sz < 0 && kind != cache.CAS {
@@ -609,3 +645,67 @@ func checkImage(t *rapid.T, im image, before, after, codec string, maxSize int64
 // A torn headerless file is indexed with its current length; C04's
 // "logical size == file length" then holds trivially, so nothing to excuse.
 func isKnownTornLength(err error, im image) bool { return false }
+
+// TestC08KnownSameTick re-demonstrates the listed finding sigSameTick on
+// every run (and stays silent once it is repaired): an action-cache key is
+// overwritten, the process is killed before the remover has unlinked the
+// predecessor, and both files carry the same access time (two uploads within
+// one tick of the kernel's coarse clock). It never fails.
+func TestC08KnownSameTick(t *testing.T) {
+	if !E.IsListed(sigSameTick) {
+		t.Skip("not listed")
+	}
+	g.release()
+	defer g.release()
+	for attempt := 0; attempt < 12; attempt++ {
+		s, err := stack.New(stack.Opts{Storage: "zstd", MaxSize: 64 << 20, NoServers: true})
+		if err != nil {
+			t.Fatal(err)
+		}
+		key := gen.SHA([]byte(fmt.Sprint("same-tick-", attempt)))
+		v1, v2 := acValue(1, 10), acValue(2, 200)
+		if err := s.Cache.Put(context.Background(), cache.AC, key, int64(len(v1)), bytes.NewReader(v1)); err != nil {
+			t.Fatal(err)
+		}
+		g.park() // the remover will not get to unlink the predecessor
+		unlinkBudget.mu.Lock()
+		unlinkBudget.n = 0
+		unlinkBudget.mu.Unlock()
+		if err := s.Cache.Put(context.Background(), cache.AC, key, int64(len(v2)), bytes.NewReader(v2)); err != nil {
+			t.Fatal(err)
+		}
+		img := copyDir(s.Dir) // the kill
+		g.release()
+		s.Close()
+		// both files were created within one clock tick
+		tick := time.Now().Add(-time.Minute).Truncate(time.Second)
+		n := 0
+		for f := range stack.ListFiles(img) {
+			if strings.Contains(f, key) {
+				_ = os.Chtimes(filepath.Join(img, f), tick, tick)
+				n++
+			}
+		}
+		if n != 2 {
+			stack.RecycleDir(img)
+			continue
+		}
+		s2, err := stack.New(stack.Opts{Storage: "zstd", MaxSize: 64 << 20, Dir: img, NoServers: true})
+		if err != nil {
+			t.Fatal(err)
+		}
+		s2.WaitEvictions(10 * time.Second)
+		rc, _, _ := s2.Cache.Get(context.Background(), cache.AC, key, -1, 0)
+		var got []byte
+		if rc != nil {
+			got, _ = io.ReadAll(rc)
+			rc.Close()
+		}
+		s2.Close()
+		stack.RecycleDir(img)
+		if !bytes.Equal(got, v2) {
+			E.Known(sigSameTick) // the acknowledged overwrite is gone, its predecessor (or nothing) is served
+			return
+		}
+	}
+}
